@@ -313,6 +313,58 @@ func c08Headers(p *Prog, r *Report) {
 	for k, seen := range need {
 		r.Check(seen, "C08.R4", rn+": "+k+" is filled in", p.FuncPos(fn), "set", "the forwarding header "+k+" is never set")
 	}
+	// X-Forwarded-Proto and X-Forwarded-Port describe the connection itself: on every path through the rewriter they
+	// are either already present (non-empty edge of the Get test) or set — no other condition (a peer address that
+	// does not parse, ...) may leave them out.
+	for _, k := range []string{"X-Forwarded-Proto", "X-Forwarded-Port"} {
+		var present []Edge
+		setK := map[ssa.Instruction]bool{}
+		for _, s := range sets {
+			if s.key == k {
+				setK[s.call] = true
+			}
+		}
+		for _, g := range gets {
+			if g.key != k {
+				continue
+			}
+			for _, ifi := range ifs(fn) {
+				cond, pos := condStrip(ifi.Cond)
+				bo, isB := cond.(*ssa.BinOp)
+				if !isB || (bo.Op != token.EQL && bo.Op != token.NEQ) || stripConv(bo.X) != ssa.Value(g.call) {
+					continue
+				}
+				if sv, isS := constString(bo.Y); !isS || sv != "" {
+					continue
+				}
+				kEmpty := 0
+				if (bo.Op == token.EQL) != pos {
+					kEmpty = 1
+				}
+				present = append(present, Edge{ifi.Block(), 1 - kEmpty})
+			}
+		}
+		if len(setK) == 0 || len(present) == 0 {
+			continue // reported above
+		}
+		seen := Reach(fn, nil, func(x ssa.Instruction) bool { return setK[x] }, func(e Edge) bool {
+			for _, d := range present {
+				if d.B == e.B && d.K == e.K {
+					return false
+				}
+			}
+			return true
+		})
+		var bad ssa.Instruction
+		for _, ret := range Returns(fn) {
+			if seen[ret] {
+				bad = ret
+			}
+		}
+		r.Paths++
+		r.Check(bad == nil, "C08.R4", rn+": "+k+" is set on every path on which it is absent", p.FuncPos(fn), "no return is reachable without passing Set("+k+") or the header-present edge",
+			k+" is left out on a path through the rewriter"+atInstr(p, bad)+" although the client did not supply it (e.g. when the peer address does not parse): the backend cannot tell the scheme / port of the original connection")
+	}
 	// X-Forwarded-Server
 	okSrv := false
 	for _, s := range sets {
@@ -824,6 +876,7 @@ func mutantsC08() []Mutant {
 		{Name: "forwarded-port-may-be-empty", File: "forward/rewrite.go", Old: "err == nil && port != \"\" {", New: "err == nil {", Expect: "C08.R4"},
 		{Name: "shared-header-rewriter", File: "forward/rewrite.go", Old: "\treturn &HeaderRewriter{TrustForwardHeader: true, Hostname: h}\n", New: "\tsharedRewriter.Hostname = h\n\treturn sharedRewriter\n", More: []Edit{{"forward/rewrite.go", "// NewHeaderRewriter creates", "var sharedRewriter = &HeaderRewriter{TrustForwardHeader: true}\n\n// NewHeaderRewriter creates"}}, Expect: "C08.R6"},
 		{Name: "drop-rawpath", File: fw, Old: "\toutReq.URL.RawPath = u.RawPath\n", New: "", Expect: "C08.R1"},
+		{Name: "proto-port-behind-peer-parse", File: rw, Old: "\txfProto := req.Header.Get(XForwardedProto)\n", New: "\tif _, _, err := net.SplitHostPort(req.RemoteAddr); err != nil {\n\t\treturn\n\t}\n\n\txfProto := req.Header.Get(XForwardedProto)\n", Expect: "C08.R4"},
 		{Name: "proto-unconditional", File: rw, Old: "\txfProto := req.Header.Get(XForwardedProto)\n\tif xfProto == \"\" {", New: "\txfProto := req.Header.Get(XForwardedProto)\n\tif xfProto == \"\" || true {", Expect: "C08.R4"},
 		{Name: "xheaders-missing-port", File: hd, Old: "\tXForwardedPort,\n\tXForwardedServer,\n\tXRealIP,\n}", New: "\tXForwardedServer,\n\tXRealIP,\n}", Expect: "C08.R5"},
 		{Name: "passhost-inverted", File: fw, Old: "\t\t\tif !passHostHeader {", New: "\t\t\tif passHostHeader {", Expect: "C08.R3"},
